@@ -712,3 +712,54 @@ def rule_cbranch(ctx, R):
                             R.ok(inst, where)
     if n < 500:
         raise AnalysisBroken('A64-CBR-HSEM: only %d cases' % n)
+
+
+@memoised('A64-DSOFF')
+def rule_dsoff(ctx, R):
+    if STRICT_FAMILY:
+        R.note('rule_dsoff skipped: RXVERIF_STRICT_FAMILY=1')
+        return
+    from rules.rvhsem import _exec_prefix, FI_const
+    F, hs = jit.handlers(ctx, 'a64')
+    R.rule('A64-DSOFF', 'generateProgramLight (A64): the two `add x2, x2, #imm` words patched into the template add exactly datasetOffset / 64 (low 12 bits, then the next 12 bits shifted by 12), for every value of the low 12 bits and '
+           'several upper parts; decided by known-bits evaluation of the split and the architectural meaning of ADD (immediate)', min_instances=1)
+    R.saw(config='K2', unit='src/jit_compiler_a64.cpp')
+    f = F.func('randomx::JitCompilerA64::generateProgramLight')
+    R.saw(fn=f['q'])
+    where = '%s:%d' % (f['file'], f['line'])
+    off_p = [p for p in f['params'] if type_info(p.get('ty')) is not None]
+    if len(off_p) != 1:
+        raise AnalysisBroken('A64-DSOFF: the dataset offset parameter of generateProgramLight was not identified')
+    off_p = off_p[0]
+    cls = FI_const(ctx, 'randomx::CacheLineSize')
+    # the patch statements: the emit32 calls after the last repositioning of the write position
+    stmts = f['body']['s']
+    pos_sets = [i for i, s in enumerate(stmts) if strip_all(s)['k'] == 'Assign' and 'light_dataset_offset' in show(strip_all(s)['r'])]
+    if len(pos_sets) != 1:
+        raise AnalysisBroken('A64-DSOFF: the repositioning to the dataset-offset patch site was not found')
+    sites = [s for s in stmts[pos_sets[0] + 1:] if strip_all(s)['k'] == 'Call' and (strip_all(s).get('name') or '').startswith('emit')]
+    if not sites:
+        raise AnalysisBroken('A64-DSOFF: nothing is emitted at the dataset-offset patch site')
+    if any(strip_all(s).get('name') != 'emit32' for s in sites):
+        raise AnalysisBroken('A64-DSOFF: the patch site is written through a helper (A64-PATCHLEN decides whether that is admissible)')
+    n = 0
+    bad = None
+    for low in range(4096):
+        for up in ((0, 1, 0x3F, 0x7F, 0xFFF) if (low % 64 == 0 or low in (0x7FF, 0x801, 0xFFF)) else (0, 0x7F)):
+            item = (up << 12) | low
+            ev = _exec_prefix(F, f, {off_p['id']: KB.const(32, (item * cls) & 0xffffffff)}, sites[-1])
+            if (item * cls) >> 32:
+                continue
+            tot = 0
+            ok = True
+            for s_ in sites:
+                w = ev.ev(strip_all(s_)['a'][0]).value()
+                if w is None or (w & 0xFF800000) != 0x91000000 or (w & 31) != 2 or ((w >> 5) & 31) != 2:
+                    ok = False
+                    break
+                tot += ((w >> 10) & 0xfff) << (12 * ((w >> 22) & 1))
+            n += 1
+            if (not ok or tot != item) and bad is None:
+                bad = 'datasetOffset / 64 = %#x: the patched words %s' % (item, 'add %#x' % tot if ok else 'are not `add x2, x2, #imm`')
+    R.check(bad is None, 'add pair for the dataset offset', where, expected='x2 += datasetOffset / 64 for all %d sampled offsets' % n, found=bad or 'exact')
+    R.extra['a64_dsoff_samples'] = n
